@@ -10,10 +10,11 @@ from .core.slicing import origins, origin_args, origin_calls
 from .core.symexpr import expr, show, strip_refs, local_expr
 
 RULES = {
-    "C25.1": "encoder shape: wal_key is format!(P \"{}\" S \"{}\") with the topic in the first hole, the segment in the second, nothing after the second hole; the segment is an "
-             "unsigned integer (its Display is [0-9]+)",
-    "C25.2": "decoder shape: parse_wal_key splits with rsplitn(2, S'), returns None unless 2 parts were produced, strips prefix P' from the part at index 1 (the left part), parses the "
-             "part at index 0 (the right part) as u64 and returns exactly (left part without prefix, parsed number)",
+    "C25.1": "encoder shape: wal_key formats exactly P, topic, S, segment in that order (P and S literal text of the template or string constants), nothing after the segment; the "
+             "segment is an unsigned integer (its Display is [0-9]+)",
+    "C25.2": "decoder shape: parse_wal_key splits at the right-most S' (rsplitn(2, S') with a 2-part guard, or rsplit_once(S')), removes the prefix P' from the left part exactly once "
+             "(strip_prefix; trimming functions that remove repeated or partial matches are reported), parses the right part as u64 and returns exactly (left part without prefix, "
+             "parsed number)",
     "C25.3": "agreement: S' == S, P' == P, S is non-empty and its last character is not an ASCII digit",
 }
 
@@ -32,6 +33,8 @@ def run(ctx):
     ctx.saw_body(dec)
     FE, FD = "types::wal_key", "types::parse_wal_key"
     # ---- encoder ---------------------------------------------------------------------
+    # the formatted sequence: literal pieces of the template, and arguments; an argument that is a
+    # string constant (`const P: &str`, promoted `&P`) is a literal piece too
     tmpl = None
     for site, st in enc.assigns():
         rv = st["rv"]
@@ -40,83 +43,145 @@ def run(ctx):
             if b is not None:
                 tmpl = (b, site)
     P = S = None
+    arr = None
+    for site, st in enc.assigns():
+        if st["rv"]["k"] == "agg" and st["rv"].get("akind") == "array":
+            arr = st
+    seq = None
     if tmpl is None:
         ctx.violate("C25.1", FE, "encoder-not-a-format", enc.relfile, enc.line, "wal_key is not a format! of a literal template")
     else:
         pieces = common.fmt_template_pieces(tmpl[0])
         if pieces is None:
             ctx.violate("C25.1", FE, "template-undecided", enc.relfile, tmpl[1].line, "format template uses an encoding the rule does not know: fail closed")
-        elif len(pieces) == 4 and pieces[0] is not None and pieces[1] is None and pieces[2] is not None and pieces[3] is None:
-            P, S = pieces[0].decode("utf-8", "replace"), pieces[2].decode("utf-8", "replace")
-            ctx.ok("C25.1", FE, "template is P{}S{} with P=%r S=%r and nothing after the second hole" % (P, S), enc.relfile, tmpl[1].line)
-        elif len(pieces) == 3 and pieces[0] is None and pieces[1] is not None and pieces[2] is None:
-            P, S = "", pieces[1].decode("utf-8", "replace")
-            ctx.ok("C25.1", FE, "template is {}S{} with empty prefix, S=%r" % S, enc.relfile, tmpl[1].line)
         else:
-            ctx.violate("C25.1", FE, "template-shape", enc.relfile, tmpl[1].line, "format template pieces are %s; expected prefix, hole, separator, hole" % pieces)
-    # argument order and formatters
-    arr = None
-    for site, st in enc.assigns():
-        if st["rv"]["k"] == "agg" and st["rv"].get("akind") == "array":
-            arr = st
-    if arr is None or len(arr["rv"]["ops"]) != 2:
-        ctx.violate("C25.1", FE, "format-arguments", enc.relfile, enc.line, "wal_key does not format exactly two arguments")
-    else:
-        tys = []
-        srcs = []
-        for o in arr["rv"]["ops"]:
-            l = op_local(o)
-            d = enc.def_rvalue(l)
-            if not (d and d[0] == "call" and callee_name(d[1]).endswith("Argument::new_display")):
-                ctx.violate("C25.1", FE, "format-argument-not-display", enc.relfile, arr["line"], "an argument is not formatted with Display")
-                tys = None
-                break
-            ae = strip_refs(expr(enc, d[1]["args"][0]))
-            if ae[0] == "v" and 1 <= ae[1] <= enc.arg_count:
-                srcs.append([ae[2] or str(ae[1])])
-                tys.append(enc.local_ty(ae[1]))
+            args = []
+            bad_arg = False
+            for o in (arr["rv"]["ops"] if arr else []):
+                l = op_local(o)
+                d = enc.def_rvalue(l)
+                if not (d and d[0] == "call" and callee_name(d[1]).endswith("Argument::new_display")):
+                    ctx.violate("C25.1", FE, "format-argument-not-display", enc.relfile, arr["line"], "an argument is not formatted with Display")
+                    bad_arg = True
+                    break
+                a0 = d[1]["args"][0]
+                # constant string argument?
+                cst = None
+                cur = enc.resolve_copy(a0)
+                for _ in range(10):
+                    if cur is None or cst is not None:
+                        break
+                    if cur.get("k") == "const":
+                        cst = cur.get("str")
+                        break
+                    pl = op_place(cur)
+                    if pl is None:
+                        break
+                    dd = enc.def_rvalue(pl["l"])
+                    if not dd or dd[0] != "rv":
+                        break
+                    rvv = dd[1]
+                    flds = [e_ for e_ in pl["p"] if isinstance(e_, dict) and "f" in e_]
+                    if rvv["k"] == "agg" and rvv.get("akind") == "tuple" and len(flds) == 1:
+                        cur = rvv["ops"][flds[0]["f"]]
+                    elif rvv["k"] in ("use", "cast"):
+                        cur = rvv["op"]
+                    elif rvv["k"] == "ref":
+                        cur = {"k": "copy", "place": {"l": rvv["place"]["l"], "p": [e_ for e_ in rvv["place"]["p"] if e_ != "*"]}}
+                    else:
+                        break
+                if cst is not None:
+                    args.append(("lit", cst))
+                else:
+                    ae = strip_refs(expr(enc, a0))
+                    if ae[0] == "v" and 1 <= ae[1] <= enc.arg_count:
+                        args.append(("arg", ae[1], enc.local_ty(ae[1]), ae[2] or str(ae[1])))
+                    else:
+                        args.append(("arg", None, "?", show(ae, 4)[:30]))
+            if not bad_arg:
+                holes = sum(1 for x in pieces if x is None)
+                if holes != len(args):
+                    ctx.violate("C25.1", FE, "format-arguments", enc.relfile, enc.line, "the template has %d holes and %d arguments" % (holes, len(args)))
+                else:
+                    seq = []
+                    ai = 0
+                    for x in pieces:
+                        item = ("lit", x.decode("utf-8", "replace")) if x is not None else args[ai]
+                        if x is None:
+                            ai += 1
+                        if item[0] == "lit" and seq and seq[-1][0] == "lit":
+                            seq[-1] = ("lit", seq[-1][1] + item[1])
+                        elif not (item[0] == "lit" and item[1] == ""):
+                            seq.append(item)
+    if seq is not None:
+        shape = [x[0] for x in seq]
+        if shape == ["lit", "arg", "lit", "arg"]:
+            P, S = seq[0][1], seq[2][1]
+            t_arg, n_arg = seq[1], seq[3]
+        elif shape == ["arg", "lit", "arg"]:
+            P, S = "", seq[1][1]
+            t_arg, n_arg = seq[0], seq[2]
+        else:
+            t_arg = n_arg = None
+            ctx.violate("C25.1", FE, "template-shape", enc.relfile, tmpl[1].line, "the key is formatted as %s; expected prefix, topic, separator, segment" % [x[:2] for x in seq])
+        if t_arg is not None:
+            ctx.ok("C25.1", FE, "key = %r + topic + %r + segment, nothing after the segment" % (P, S), enc.relfile, tmpl[1].line)
+            if t_arg[1] == 1 and n_arg[1] == 2 and t_arg[2] == "&str" and n_arg[2] in ("u64", "u32", "u16", "u8", "usize", "u128"):
+                ctx.ok("C25.1", FE, "holes are filled with (topic: &str, segment: %s) in that order" % n_arg[2], enc.relfile, arr["line"])
             else:
-                srcs.append([])
-                tys.append("?")
-        if tys is not None:
-            names = [s_[0] if s_ else "?" for s_ in srcs]
-            a1 = enc.arg_local(names[0]) if names[0] != "?" else None
-            a2 = enc.arg_local(names[1]) if names[1] != "?" else None
-            if a1 == 1 and a2 == 2 and tys[0] == "&str" and tys[1] in ("u64", "u32", "u16", "u8", "usize", "u128"):
-                ctx.ok("C25.1", FE, "holes are filled with (topic: &str, segment: %s) in that order" % tys[1], enc.relfile, arr["line"])
-            else:
-                ctx.violate("C25.1", FE, "format-argument-order-or-type", enc.relfile, arr["line"], "holes are filled with %s of types %s" % (names, tys))
+                P = S = None
+                ctx.violate("C25.1", FE, "format-argument-order-or-type", enc.relfile, arr["line"], "holes are filled with %s of types %s" % ([t_arg[3], n_arg[3]], [t_arg[2], n_arg[2]]))
     # ---- decoder ---------------------------------------------------------------------
-    rs = dec.calls(re.compile(r"str>?::rsplitn$|str::rsplitn$"))
-    others = dec.calls(re.compile(r"str>?::(splitn|split|rsplit|split_once|rsplit_once)$|str::(splitn|split|rsplit|split_once|rsplit_once)$"))
+    def str_of(o):
+        if o.get("str") is not None:
+            return o["str"]
+        l = op_local(dec.resolve_copy(o))
+        d = dec.def_rvalue(l) if l is not None else None
+        if d and d[0] == "rv" and d[1]["k"] == "use" and d[1]["op"].get("str") is not None:
+            return d[1]["op"]["str"]
+        return None
+    rs = dec.calls(re.compile(r"str>?::(rsplitn|rsplit_once)$|str::(rsplitn|rsplit_once)$"))
+    others = dec.calls(re.compile(r"str>?::(splitn|split|rsplit|split_once|split_terminator|rsplit_terminator)$|str::(splitn|split|rsplit|split_once)$"))
     Sd = Pd = None
+    LEFT = RIGHT = None
     if len(rs) != 1 or others:
         ctx.violate("C25.2", FD, "decoder-split", dec.relfile, (rs or others or [None])[0].line if (rs or others) else dec.line,
-                    "parse_wal_key does not split with exactly one rsplitn (found %s)" % [callee_name(s.node).split("::")[-1] for s in rs + others])
+                    "parse_wal_key does not split with exactly one right-most split (rsplitn(2, S) or rsplit_once(S)); found %s" % [callee_name(s.node).split("::")[-1] for s in rs + others])
     else:
-        n = const_of(dec, rs[0].node["args"][1])
-        sep = rs[0].node["args"][2]
-        Sd = sep.get("str")
+        kind = callee_name(rs[0].node).split("::")[-1]
         src, _, _ = origins(dec, rs[0].node["args"][0])
-        if n == 2 and Sd is not None and len(origin_args(src)) == 1:
-            ctx.ok("C25.2", FD, "splits the key with rsplitn(2, %r)" % Sd, dec.relfile, rs[0].line)
+        if kind == "rsplitn":
+            n = const_of(dec, rs[0].node["args"][1])
+            Sd = str_of(rs[0].node["args"][2])
+            if n == 2 and Sd is not None and len(origin_args(src)) == 1:
+                ctx.ok("C25.2", FD, "splits the key with rsplitn(2, %r)" % Sd, dec.relfile, rs[0].line)
+            else:
+                ctx.violate("C25.2", FD, "decoder-split-arguments", dec.relfile, rs[0].line, "rsplitn is called with n=%s, separator %s" % (n, Sd))
+            LEFT = r"(?:ref\()*collect\(rsplitn\(.*?\)\)+\[1\]\)*"
+            RIGHT = r"(?:ref\()*collect\(rsplitn\(.*?\)\)+\[0\]\)*"
+            # 2-part guard: Ne(len(parts), 2) -> None
+            guard = False
+            for T in all_tests(dec):
+                if T.kind == "cmp" and T.op in ("Ne", "Eq") and const_of(dec, T.b) == 2:
+                    e = show(strip_refs(expr(dec, T.a)), 12)
+                    if e.startswith("len(") and "rsplitn" in e:
+                        bad_edge = T.true_edge if T.op == "Ne" else T.false_edge
+                        nb = [site.bb for site, st in dec.assigns() if st["place"]["l"] == 0 and st["rv"]["k"] == "agg" and st["rv"].get("variant") == "None"]
+                        if any(dec.edge_guards(bad_edge, b) for b in nb):
+                            guard = True
+            if guard:
+                ctx.ok("C25.2", FD, "returns None unless the split produced exactly 2 parts", dec.relfile, dec.line)
+            else:
+                ctx.violate("C25.2", FD, "missing-two-part-guard", dec.relfile, dec.line, "parse_wal_key does not require that the split produced 2 parts")
         else:
-            ctx.violate("C25.2", FD, "decoder-split-arguments", dec.relfile, rs[0].line, "rsplitn is called with n=%s, separator %s" % (n, sep.get("str")))
-    # 2-part guard: Ne(len(parts), 2) -> None
-    guard = False
-    for T in all_tests(dec):
-        if T.kind == "cmp" and T.op in ("Ne", "Eq") and const_of(dec, T.b) == 2:
-            e = show(strip_refs(expr(dec, T.a)), 12)
-            if e.startswith("len(") and "rsplitn" in e:
-                bad_edge = T.true_edge if T.op == "Ne" else T.false_edge
-                # the bad edge returns None
-                nb = [site.bb for site, st in dec.assigns() if st["place"]["l"] == 0 and st["rv"]["k"] == "agg" and st["rv"].get("variant") == "None"]
-                if any(dec.edge_guards(bad_edge, b) for b in nb):
-                    guard = True
-    if guard:
-        ctx.ok("C25.2", FD, "returns None unless the split produced exactly 2 parts", dec.relfile, dec.line)
-    else:
-        ctx.violate("C25.2", FD, "missing-two-part-guard", dec.relfile, dec.line, "parse_wal_key does not require that the split produced 2 parts")
+            Sd = str_of(rs[0].node["args"][1])
+            if Sd is not None and len(origin_args(src)) == 1:
+                ctx.ok("C25.2", FD, "splits the key at the right-most %r with rsplit_once (None when absent)" % Sd, dec.relfile, rs[0].line)
+            else:
+                ctx.violate("C25.2", FD, "decoder-split-arguments", dec.relfile, rs[0].line, "rsplit_once is called with separator %s" % Sd)
+            base = r"(?:ref\()*(?:branch\(rsplit_once\(.*?\)\) as Continue\.0|rsplit_once\(.*?\) as Some\.0)"
+            LEFT = base + r"\.0\)*"
+            RIGHT = base + r"\.1\)*"
     # the returned pair
     ret = None
     for site, st in dec.assigns():
@@ -124,19 +189,34 @@ def run(ctx):
             ret = (site, st)
     if ret is None:
         ctx.violate("C25.2", FD, "no-some-return", dec.relfile, dec.line, "parse_wal_key never returns Some")
-    else:
+    elif LEFT is not None:
         e = strip_refs(expr(dec, ret[1]["rv"]["ops"][0]))
         sh = show(e, 40)
-        m = re.match(r"^\(to_string\((?:ref\()?branch\(strip_prefix\((?:ref\()*collect\(rsplitn\(.*?\)\)+\[(\d)\]\)*, '(.*?)'\)\) as Continue\.0\)*, branch\(ok\(parse\((?:ref\()*collect\(rsplitn\(.*?\)\)+\[(\d)\]\)*\)\)\) as Continue\.0\)$", sh)
-        if m:
-            i_left, Pd, i_right = int(m.group(1)), m.group(2), int(m.group(3))
-            if i_left == 1 and i_right == 0:
-                ctx.ok("C25.2", FD, "returns (part[1].strip_prefix(%r), part[0].parse())" % Pd, dec.relfile, ret[0].line)
+        # strings appear as 'lit' or as ?path::CONST in the expression text: normalise named constants
+        def unconst(txt):
+            def rep(m):
+                c = facts.consts.get(m.group(1)) or next((v for k, v in facts.consts.items() if k.endswith(m.group(1))), None)
+                return repr(c["str"]) if c and c.get("str") is not None else m.group(0)
+            return re.sub(r"\?([A-Za-z0-9_:]+)", rep, txt)
+        shn = unconst(sh)
+        mt = re.match(r"^\((?:to_string|to_owned|from|into)\((?:ref\()*(?:branch\(strip_prefix\(" + LEFT + r", '(.*?)'\)\) as Continue\.0|strip_prefix\(" + LEFT + r", '(.*?)'\) as Some\.0)\)*\)*, (.*)\)$", shn)
+        if mt:
+            Pd = mt.group(1) if mt.group(1) is not None else mt.group(2)
+            ctx.ok("C25.2", FD, "topic = left part with the prefix %r removed exactly once (strip_prefix)" % Pd, dec.relfile, ret[0].line)
+            num = mt.group(3)
+            if re.match(r"^branch\(ok\(parse\(" + RIGHT + r"\)\)\) as Continue\.0$", num) or re.match(r"^ok\(parse\(" + RIGHT + r"\)\) as Some\.0$", num):
+                ctx.ok("C25.2", FD, "segment = right part parsed as a number", dec.relfile, ret[0].line)
             else:
-                ctx.violate("C25.2", FD, "decoder-part-indices", dec.relfile, ret[0].line,
-                            "the topic is taken from part[%d] and the number from part[%d]; rsplitn yields the right part first" % (i_left, i_right))
+                ctx.violate("C25.2", FD, "decoder-number-source", dec.relfile, ret[0].line, "the segment number is %s; expected <right part>.parse().ok()?" % num[:120])
         else:
-            ctx.violate("C25.2", FD, "decoder-result-shape", dec.relfile, ret[0].line, "the returned pair is %s; expected (strip_prefix(part[1], P).to_string(), part[0].parse().ok()?)" % sh[:200])
+            culprit = re.search(r"(trim_start_matches|trim_matches|trim_end_matches|trim_left_matches|replace|replacen|trim_start|trim|strip_suffix|to_lowercase|to_uppercase)\(", shn)
+            if culprit:
+                ctx.violate("C25.2", FD, "prefix-not-removed-exactly-once:" + culprit.group(1), dec.relfile, ret[0].line,
+                            "the topic is obtained with %s, which does not remove the prefix exactly once: a topic that itself begins with the prefix (or contains what is trimmed) "
+                            "decodes to a different topic, so two keys map to one (topic, segment)" % culprit.group(1))
+            else:
+                ctx.violate("C25.2", FD, "decoder-result-shape", dec.relfile, ret[0].line,
+                            "the returned pair is %s; expected (left part).strip_prefix(P)?.to_string() and (right part).parse().ok()?" % shn[:220])
         ps = dec.calls(re.compile(r"str>?::parse$|str::parse$"))
         if len(ps) == 1 and "parse::<u64>" in (ps[0].node.get("callee_generic") or ""):
             ctx.ok("C25.2", FD, "the number is parsed as u64", dec.relfile, ps[0].line)
